@@ -11,7 +11,15 @@ class GhostRng:
         self.name = name
         self.draws = []
 
+    @staticmethod
+    def _int(x):
+        # random.Random.randint / RandState.randint convert their bounds with int()
+        while not isinstance(x, (int, SymInt)) and hasattr(type(x), "__int__"):
+            x = type(x).__int__(x)
+        return x
+
     def randint(self, lo, hi):
+        lo, hi = self._int(lo), self._int(hi)
         r = self.c.fresh_int(self.name)
         self.c.assume(r >= lo)
         self.c.assume(r <= hi)
